@@ -179,6 +179,55 @@ def compare_variants(rec, batch, desc, calls, tag, chain=None, has_header=False,
     rec.sample(dict(description=desc[:400], calls=len(calls), tag=str(tag)), limit=3)
 
 
+# descriptions whose Python sections keep state: a second compilation starts from a fresh state, as
+# does the emitted source executed on its own (every variant sees the same calls in the same order)
+STATEFUL = [
+    ('counter', '```\nseen = []\ndef note(x):\n    seen.append(x)\n    return len(seen)\n```\nstart = (Word |> `note`)*\nWord = /[a-z]/\n',
+     ['abc', '', 'ab', 'a1', 'zz']),
+    ('typedefs', '```\ntypes = {"int"}\ndef define(n):\n    types.add(n)\n    return ("def", n)\n```\n'
+                 'start = (Def | Use)*\nDef = "type " >> (Name |> `define`) << ";"\n'
+                 'Use = (Name where `lambda n: n in types`) << ";"\nName = /[a-z]+/\nignore /[ ]+/\n',
+     ['int;', 'foo;', 'type foo; foo;', 'foo;', 'bar; type bar;', 'type bar;', 'bar;']),
+    ('generation-counter', '```\nimport itertools\nfresh = itertools.count(1)\n```\nstart = ("x" >> `next(fresh)`)*\n',
+     ['xx', 'x', '', 'xxx']),
+]
+
+
+def name_reuse(rec):
+    """A name compiled with description A, then with a different description B, then with A again:
+    a grammar that extends the name afterwards builds on A (and, in the other order, on B)."""
+    import sys
+    descs = {'A': 'start = "a"+\nTail = "!"', 'B': 'start = "b"+\nTail = "?"'}
+    child = 'grammar %s extends %s\nstart = [super.start, Tail?]'
+    texts = ['a', 'aa!', 'b', 'bb?', 'a?', 'b!', '']
+    for order in (['A', 'B', 'A'], ['B', 'A', 'B'], ['A', 'A', 'B', 'A'], ['A', 'B', 'B']):
+        name, cname = diff.unique_name('vt_c11n'), diff.unique_name('vt_c11c')
+        ref_name, ref_cname = diff.unique_name('vt_c11rn'), diff.unique_name('vt_c11rc')
+        try:
+            for k in order:
+                r = observe.compile_grammar(with_name(descs[k], name))
+                if r[0] != 'ok':
+                    rec.violation('name-reuse:grammar-error', 'Grammar()', dict(kind='name-reuse', order=order), 'module', r)
+                    return
+            got_g = observe.compile_grammar(child % (cname, name))
+            observe.compile_grammar(with_name(descs[order[-1]], ref_name))
+            want_g = observe.compile_grammar(child % (ref_cname, ref_name))
+            if got_g[0] != 'ok' or want_g[0] != 'ok':
+                rec.violation('name-reuse:grammar-error', 'Grammar() of the extension', dict(kind='name-reuse', order=order), 'modules', (got_g[:2], want_g[:2]))
+                return
+            for t in texts:
+                want, got = call_outcome(want_g[1], None, t, 0, True), call_outcome(got_g[1], None, t, 0, True)
+                rec.case()
+                rec.count('name_reuse_calls')
+                rec.nontrivial(('name-reuse', tuple(order), t))
+                if not observe.same_outcome(want, got):
+                    rec.violation('name-reuse:extension-built-on-stale-module', 'extension of a re-used name vs extension of a fresh name',
+                                  dict(kind='name-reuse', order=order, text_repr=repr(t)), want, got)
+        finally:
+            for n in (name, cname, ref_name, ref_cname):
+                sys.modules.pop(n, None)
+
+
 def generated(rec, i):
     """(tag, G, inputs alphabet extras) from the owning generators."""
     k = i % 7
@@ -321,6 +370,13 @@ def run_shard(rec):
         compare_variants(rec, batch, gast.render_grammar(G), calls, ('curated', origin, tag), chain=chain, G=G)
         if len(batch.items) >= 12:
             batch.run(rec)
+    for tag, d, texts in STATEFUL:
+        idx += 1
+        if rec.mine(idx):
+            compare_variants(rec, batch, d, [(None, t, 0, True) for t in texts], ('stateful', tag))
+    idx += 1
+    if rec.mine(idx):
+        name_reuse(rec)
     n = 14 if quick else 400
     for i in range(n):
         if rec.out_of_time():
@@ -358,8 +414,16 @@ def run_shard(rec):
 
 def replay(rec, rep):
     case = rep['case']
+    if case.get('kind') == 'name-reuse':
+        return name_reuse(rec)
     desc = case['desc']
     batch = Batch()
+    for tag, d, texts in STATEFUL:
+        if d == desc:
+            # state evolves over the whole call sequence: replay all of it
+            compare_variants(rec, batch, d, [(None, t, 0, True) for t in texts], ('stateful', tag))
+            batch.run(rec)
+            return
     if case.get('text_repr'):
         calls = [(case.get('entry'), ast.literal_eval(case['text_repr']), case.get('pos', 0), case.get('fullparse', True))]
     else:
